@@ -190,7 +190,7 @@ Proof. exact outgoing_checksum. Qed.
 
 (* The random header determines the 32 bytes drawn: two requests carry the same random
    only if the randomness source delivered the same 32 bytes.  (That the source does
-   not repeat is a statistical test in the correspondence run, not a theorem.) *)
+   not repeat is the explicit hypothesis never_repeats of C02_outgoing_static_fresh / _etcd_fresh.) *)
 Theorem C02_outgoing_random_injective :
   forall rand1 rand2 : nat -> ascii,
   new_random_string rand1 outgoing_random_len = new_random_string rand2 outgoing_random_len ->
@@ -274,6 +274,70 @@ Theorem C02_outgoing_etcd_removed :
   BackendCfg.lookup_etcd up (BackendCfg.fresh_etcd up (BackendCfg.final_kv (OutReq.events_of pre))) u = BackendCfg.LRes None ->
   last (OutReq.erun_etcd hmac up secret_of rand (pre ++ [OutReq.EReq u body])%list) OutReq.SPanic = OutReq.SNone.
 Proof. exact OutReq_proofs.out_etcd_removed. Qed.
+
+(* ---- outgoing direction: FRESH random, whatever happens to the requests -----------------
+
+   "Every request the server sends to a backend carries a fresh random": a random is used for
+   one request only.  model/OutReq.v, back part of PerformJSONRequest: whatever becomes of a
+   request at the backend (answered; connection closed before a response byte; closed in the
+   middle of the response; 500; no answer within the timeout of the call) it is sent ONCE and
+   every fate but an answer is an error for the caller; a caller that tries again issues a new
+   request of the history, which draws the next random. *)
+Theorem C02_outgoing_one_attempt :
+  forall s f,
+  fst (OutReq.deliver s f) = fst (OutReq.deliver s OutReq.FAnswered) /\
+  (List.length (fst (OutReq.deliver s f)) <= 1)%nat /\
+  (forall h, s = OutReq.SSent h -> fst (OutReq.deliver s f) = [h]) /\
+  (f <> OutReq.FAnswered -> snd (OutReq.deliver s f) = OutReq.OError).
+Proof. exact OutReq_proofs.deliver_once. Qed.
+
+(* what arrives at the backends during a history does not depend on the fates of the requests *)
+Theorem C02_outgoing_wire_independent_of_fates :
+  forall fates1 fates2 ss m1 m2, OutReq.wire fates1 m1 ss = OutReq.wire fates2 m2 ss.
+Proof. exact OutReq_proofs.wire_fates. Qed.
+
+(* For EVERY history of reloads and requests, every initial configuration and every assignment
+   of fates: the randoms of the requests that arrive at the backends are pairwise distinct -
+   under the explicit hypothesis that the randomness source never delivers the same 32 bytes
+   to two requests (`rand k` is what crypto/rand delivers to the k-th request).  No hypothesis
+   on the configurations (not _partial: freshness does not depend on the tables). *)
+Theorem C02_outgoing_static_fresh :
+  forall hmac up secret_of rand fates c0 ops,
+  OutReq_proofs.never_repeats rand ->
+  NoDup (map fst (OutReq.wire fates 0 (OutReq.orun_static hmac up secret_of rand c0 ops))).
+Proof. exact OutReq_proofs.out_static_fresh. Qed.
+
+Theorem C02_outgoing_etcd_fresh :
+  forall hmac up secret_of rand fates ops,
+  OutReq_proofs.never_repeats rand ->
+  NoDup (map fst (OutReq.wire fates 0 (OutReq.erun_etcd hmac up secret_of rand ops))).
+Proof. exact OutReq_proofs.out_etcd_fresh. Qed.
+
+(* the hypothesis is needed and not vacuous: a source that counts never repeats, and with it two
+   requests, the first of which loses its connection, arrive with different randoms; a constant
+   source repeats, and the two requests carry the same random *)
+Example C02_outgoing_fresh_nonvacuous :
+  let up := BackendCfg_proofs.wit_up in
+  let sec := fun _ : N => "s" in
+  let hm := fun k m : bytes => (k ++ "|" ++ m) in
+  let cfg := BackendCfg_proofs.wit_cfg [1%N] [(1%N, BackendCfg_proofs.wit_sec "https://h1.example/a/" 1%N)] in
+  let u := "https://h1.example/a/x" in
+  let fates := fun k : nat => match k with O => OutReq.FClosed | _ => OutReq.FAnswered end in
+  let counting := fun k i : nat => match i with O => ascii_of_nat k | _ => "a"%char end in
+  (forall j k, (j < 256)%nat -> (k < 256)%nat -> j <> k -> rand_read (counting j) 32 <> rand_read (counting k) 32) /\
+  List.length (OutReq.wire fates 0 (OutReq.orun_static hm up sec counting cfg [OutReq.OReq u "{}"; OutReq.OReq u "{}"])) = 2%nat /\
+  NoDup (map fst (OutReq.wire fates 0 (OutReq.orun_static hm up sec counting cfg [OutReq.OReq u "{}"; OutReq.OReq u "{}"]))) /\
+  ~ NoDup (map fst (OutReq.wire fates 0 (OutReq.orun_static hm up sec (fun _ _ => "a"%char) cfg [OutReq.OReq u "{}"; OutReq.OReq u "{}"]))).
+Proof.
+  intros up sec hm cfg u fates counting. split; [|split; [|split]].
+  - intros j k Hj Hk Hne He. apply Hne. subst counting.
+    assert (H : ascii_of_nat j = ascii_of_nat k) by (cbn in He; congruence).
+    pose proof (nat_ascii_embedding j Hj) as Ej. pose proof (nat_ascii_embedding k Hk) as Ek.
+    rewrite H in Ej. congruence.
+  - vm_compute. reflexivity.
+  - vm_compute. repeat constructor; cbn; intuition discriminate.
+  - vm_compute. intros H. inversion H as [|x l Hn _]. apply Hn. left. reflexivity.
+Qed.
 
 (* not vacuous: request, secret changed by a reload, request to the same URL: the second one is
    signed with the new secret; backend removed: nothing is sent; the same through etcd *)
@@ -391,5 +455,9 @@ Print Assumptions C02_outgoing_static_removed_partial.
 Print Assumptions C02_outgoing_etcd_current.
 Print Assumptions C02_outgoing_etcd_signed.
 Print Assumptions C02_outgoing_etcd_removed.
+Print Assumptions C02_outgoing_one_attempt.
+Print Assumptions C02_outgoing_wire_independent_of_fates.
+Print Assumptions C02_outgoing_static_fresh.
+Print Assumptions C02_outgoing_etcd_fresh.
 Print Assumptions C02_P_on_model_partial.
 Print Assumptions C02_P_on_model_refuted.
